@@ -62,3 +62,69 @@ package gnet
 //@   requires lb != nil && lbwf(lb.baseLoadBalancer) && lb.nextIndex < 18446744073709551614
 //@   modifies lb.nextIndex
 //@   ensures b.idx == (a.idx + 1) % lb.size
+
+// ---------------------------------------------------------------------------------------------
+// C16: address parsing and option normalisation
+//
+//@ import errorx "github.com/panjf2000/gnet/v2/pkg/errors"
+//@ import url "net/url"
+//
+// pesc: the address with '%' percent-escaped; purl: what url.Parse makes of it (both uninterpreted:
+// the text-level behaviour of strings.ReplaceAll and net/url is assumed, see contracts/trusted/stdlib.spec).
+//@ pure pesc(s string) := ufint_replaceall(content(s), content("%"), content("%25"))
+//@ pure purl(s string) *url.URL := ufref_urlparse(pesc(s))
+//@ pred pfails(s string) := ufbool_urlparse_fails(pesc(s))
+//@ pred ipscheme(sc string) := sc == "tcp" || sc == "tcp4" || sc == "tcp6" || sc == "udp" || sc == "udp4" || sc == "udp6"
+//
+// parseProtoAddr: either an error (and empty results) or one of the seven schemes with a non-empty endpoint.
+//@ func parseProtoAddr(protoAddr string) (proto string, addr string, err error)
+//@   ensures err != nil ==> len(proto) == 0 && len(addr) == 0
+//@   ensures err == nil ==> (ipscheme(proto) || proto == "unix") && len(addr) > 0 && same(proto, purl(protoAddr).Scheme)
+//@   ensures pfails(protoAddr) ==> err != nil
+//@   ensures !pfails(protoAddr) && len(purl(protoAddr).Scheme) == 0 ==> err == errorx.ErrInvalidNetworkAddress
+//@   ensures !pfails(protoAddr) && ipscheme(purl(protoAddr).Scheme) && (len(purl(protoAddr).Host) == 0 || len(purl(protoAddr).Path) > 0) ==> err == errorx.ErrInvalidNetworkAddress
+//@   ensures !pfails(protoAddr) && ipscheme(purl(protoAddr).Scheme) && len(purl(protoAddr).Host) > 0 && len(purl(protoAddr).Path) == 0 ==> err == nil && same(addr, purl(protoAddr).Host)
+//@   ensures !pfails(protoAddr) && purl(protoAddr).Scheme == "unix" && ufint_pathjoin2len(content(purl(protoAddr).Host), content(purl(protoAddr).Path)) == 0 ==> err == errorx.ErrInvalidNetworkAddress
+//@   ensures !pfails(protoAddr) && purl(protoAddr).Scheme == "unix" && ufint_pathjoin2len(content(purl(protoAddr).Host), content(purl(protoAddr).Path)) > 0 ==> err == nil && content(addr) == ufint_pathjoin2(content(purl(protoAddr).Host), content(purl(protoAddr).Path))
+//@   ensures !pfails(protoAddr) && len(purl(protoAddr).Scheme) > 0 && !ipscheme(purl(protoAddr).Scheme) && !(purl(protoAddr).Scheme == "unix") ==> err == errorx.ErrUnsupportedProtocol
+//
+// determineEventLoops: clamped to 1..256 according to Multicore / NumEventLoop.
+//@ func determineEventLoops(opts *Options) int
+//@   requires opts != nil
+//@   ensures 1 <= res && res <= 256
+//@   ensures opts.NumEventLoop > 0 ==> res == min(opts.NumEventLoop, 256)
+//@   ensures opts.NumEventLoop <= 0 && !opts.Multicore ==> res == 1
+//
+//@ func loadOptions(options ...Option) (opts *Options)
+//@   noverify applies the caller-supplied option closures to a fresh Options value
+//@   ensures opts != nil && fresh(opts)
+//
+// Normalisation of the buffer capacities and the edge-triggered chunk (server side): checked on the prefix
+// of createListeners that ends where the address loop starts.
+//@ pred capnorm(req int, got int) := ispow2(got) && got >= req && got >= 1024 && (req <= 0 ==> got == 65536)
+//@ func createListeners(addrs []string, opts ...Option) (lns []*listener, o *Options, err error)
+//@   requires MaxStreamBufferCap == 65536
+//@   panics maybe requested capacities above 2^62 make math.CeilToPowerOfTwo panic (its documented behaviour)
+//@   let et0 after loadOptions #1 := result.EdgeTriggeredIOChunk
+//@   let etio0 after loadOptions #1 := result.EdgeTriggeredIO
+//@   let rbc0 after loadOptions #1 := result.ReadBufferCap
+//@   let wbc0 after loadOptions #1 := result.WriteBufferCap
+//@   assert at loop 1: rbc0 <= 4611686018427387904 ==> capnorm(rbc0, options.ReadBufferCap)
+//@   assert at loop 1: wbc0 <= 4611686018427387904 ==> capnorm(wbc0, options.WriteBufferCap)
+//@   assert at loop 1: et0 > 0 && et0 <= 4611686018427387904 ==> options.EdgeTriggeredIO && ispow2(options.EdgeTriggeredIOChunk) && options.EdgeTriggeredIOChunk >= et0
+//@   assert at loop 1: et0 <= 0 && etio0 ==> options.EdgeTriggeredIO && options.EdgeTriggeredIOChunk == 1048576
+//@   stop at loop 1
+//
+// The same normalisation on the client side (whole function).
+//@ func NewClient(eh EventHandler, opts ...Option) (cli *Client, err error)
+//@   requires MaxStreamBufferCap == 65536
+//@   panics maybe requested capacities above 2^62 make math.CeilToPowerOfTwo panic (its documented behaviour)
+//@   let et0 after loadOptions #1 := result.EdgeTriggeredIOChunk
+//@   let etio0 after loadOptions #1 := result.EdgeTriggeredIO
+//@   let rbc0 after loadOptions #1 := result.ReadBufferCap
+//@   let wbc0 after loadOptions #1 := result.WriteBufferCap
+//@   ensures err == nil && cli != nil && cli.opts != nil
+//@   ensures rbc0 <= 4611686018427387904 ==> capnorm(rbc0, cli.opts.ReadBufferCap)
+//@   ensures wbc0 <= 4611686018427387904 ==> capnorm(wbc0, cli.opts.WriteBufferCap)
+//@   ensures et0 > 0 && et0 <= 4611686018427387904 ==> cli.opts.EdgeTriggeredIO && ispow2(cli.opts.EdgeTriggeredIOChunk) && cli.opts.EdgeTriggeredIOChunk >= et0
+//@   ensures et0 <= 0 && etio0 ==> cli.opts.EdgeTriggeredIO && cli.opts.EdgeTriggeredIOChunk == 1048576
